@@ -9,6 +9,7 @@ import datetime
 import decimal
 
 from sa.cfg import CFG
+from sa.report import AnalysisError
 from sa.report import Result
 from sa.report import norm
 from sa.srcmodel import ClassInfo
@@ -227,6 +228,54 @@ def run(prog: Program, res: Result) -> None:
             else:
                 res.fail("C05.R3", file=ci.file, line=ci.node.lineno, qualname=ci.name, construct=f"_keys member {k!r}", message=f"key {k!r} exposed through getattr(self, key) is private or not defined by {ci.name}", what=what)
     res.floor("C05.R3", "drop key-set members", n_keys, 15)
+
+    # ------------------------------------------------------------------ R5 engine-injected arguments cannot be replaced by a template
+    res.rule("C05.R5", "the keyword arguments the engine injects into filters (RenderContext.filter: context=, environment=) cannot be supplied by a template: Filter rejects keyword arguments with those names, so a filter never calls methods of a context value passed as `context:` / `environment:`")
+    ctx_cls = prog.cls("liquid2.context.RenderContext")
+    ff = ctx_cls.methods.get("filter")
+    if ff is None:
+        raise AnalysisError("RenderContext.filter vanished")
+    injected = sorted({s_.slice.value for s_ in ast.walk(ff.node) if isinstance(s_, ast.Subscript) and isinstance(s_.ctx, ast.Store) and isinstance(s_.value, ast.Name) and s_.value.id == "kwargs" and isinstance(s_.slice, ast.Constant) and isinstance(s_.slice.value, str)})
+    res.floor("C05.R5", "names injected by RenderContext.filter", len(injected), 2)
+    flt = prog.mod("liquid2/builtin/expressions.py").classes.get("Filter")
+    if flt is None:
+        raise AnalysisError("Filter vanished")
+    rejected: set[str] = set()
+    for m in flt.methods.values():
+        for t in ast.walk(m.node):
+            if isinstance(t, ast.If) and any(isinstance(r, ast.Raise) for r in ast.walk(t)):
+                for c in ast.walk(t.test):
+                    if isinstance(c, ast.Compare) and len(c.ops) == 1 and isinstance(c.ops[0], (ast.In, ast.Eq)) and norm(c.left).endswith(".name"):
+                        comp = c.comparators[0]
+                        for x in comp.elts if isinstance(comp, (ast.Tuple, ast.List, ast.Set)) else [comp]:
+                            if isinstance(x, ast.Constant) and isinstance(x.value, str):
+                                rejected.add(x.value)
+    for name in injected:
+        site = f"{ff.file}:{ff.node.lineno} RenderContext.filter"
+        what = f"injected keyword `{name}` is refused as a template keyword argument"
+        if name in rejected:
+            res.ok("C05.R5", site, what, "Filter raises for that argument name")
+        else:
+            res.fail("C05.R5", file=flt.file, line=flt.node.lineno, qualname="Filter", construct=f"template keyword argument `{name}:` is accepted", message=f"RenderContext.filter injects `{name}=` with functools.partial and Filter passes template keyword arguments through unchecked: `{{{{ x | f: {name}: obj }}}}` replaces the engine's object by a context value, whose attributes and methods the filter then uses", what=what)
+
+    # ------------------------------------------------------------------ R6 objects whose methods the engine calls come from global data
+    res.rule("C05.R6", "the message catalog (`translations`), the one context object whose methods the engine calls by name, is read from the render's global data (context.base_globals), never from the template-writable scope (context.resolve / context.get / scope[...]): a template cannot rebind it to an arbitrary context object")
+    n_tr = 0
+    for f in prog.all_functions():
+        if f.name not in ("_resolve_translations", "resolve_translations"):
+            continue
+        n_tr += 1
+        calls = [c for c in ast.walk(f.node) if isinstance(c, ast.Call) and isinstance(c.func, ast.Attribute)]
+        from_scope = [c for c in calls if c.func.attr in ("resolve", "get_async") or (c.func.attr == "get" and norm(c.func.value) in ("context", "context.scope", "context.locals")) ] + [s_ for s_ in ast.walk(f.node) if isinstance(s_, ast.Subscript) and norm(s_.value) in ("context.scope", "context.locals")]
+        from_globals = [c for c in calls if c.func.attr == "get" and norm(c.func.value) in ("context.base_globals", "context.env.globals")]
+        site = f"{f.file}:{f.node.lineno} {f.qualname}"
+        what = f"{f.qualname} reads the catalog from global data"
+        if from_globals and not from_scope:
+            res.ok("C05.R6", site, what, norm(from_globals[0], 70))
+        else:
+            bad = from_scope[0] if from_scope else f.node
+            res.fail("C05.R6", file=f.file, line=getattr(bad, "lineno", f.node.lineno), qualname=f.qualname, construct=f"{f.qualname} resolves the catalog through the scope", message=f"{f.qualname} looks the catalog object up in the whole scope: `{{% assign translations = obj %}}` (or a with/for binding) makes the translation filters and the translate tag call obj.gettext()/ngettext()/pgettext()/npgettext() - methods of a context object chosen by the template", what=what)
+    res.floor("C05.R6", "catalog resolvers", n_tr, 2)
 
     # ------------------------------------------------------------------ R4 data values are never called
     res.rule("C05.R4", "a value that can hold a context object is never called: no `v(...)`, `v[k](...)` on data-plane variables (calling is not part of the item/length/iteration/conversion protocol)")
